@@ -64,8 +64,15 @@ fn emit_rp(c: &mut Ctx, f: &str, ls: Lay, ld: Lay, x: Num, n: i32, r: Out, rp: O
 
 /// run one call with the iteration counter reset and a budget of 64 x the C17 bound
 fn call<D: Fx, E>(ls: Lay, ld: Lay, f: impl FnOnce() -> Result<D, E>) -> (Out, u64) {
+    call_b(64 * bound(ls, ld), f)
+}
+/// powi is linear in |n| by design: its budget only guards the harness against a runaway loop
+fn call_powi<D: Fx, E>(f: impl FnOnce() -> Result<D, E>) -> (Out, u64) {
+    call_b(1 << 22, f)
+}
+fn call_b<D: Fx, E>(budget: u64, f: impl FnOnce() -> Result<D, E>) -> (Out, u64) {
     tr::verif_hooks::reset();
-    tr::verif_hooks::set_budget(64 * bound(ls, ld));
+    tr::verif_hooks::set_budget(budget);
     let r = o_res(f);
     let it = tr::verif_hooks::read();
     tr::verif_hooks::set_budget(u64::MAX);
@@ -179,10 +186,10 @@ where
             if small && c.tier == "thorough" && i % 97 == 0 { nn.push(3_000_000); }
             for n in nn {
                 if small && (n == i32::MIN || n == i32::MIN + 1) && !(v.mag == 0) { continue; }
-                let (r, it) = call::<D, _>(ls, ld, || tr::powi::<S, D>(a, n));
+                let (r, it) = call_powi::<D, _>(|| tr::powi::<S, D>(a, n));
                 if n < 0 && n != i32::MIN {
                     // the positive power, for the "truncated reciprocal" clause
-                    let (rp, _) = call::<D, _>(ls, ld, || tr::powi::<S, D>(a, -n));
+                    let (rp, _) = call_powi::<D, _>(|| tr::powi::<S, D>(a, -n));
                     emit_rp(c, "powi", ls, ld, v, n, r, rp, it);
                 } else {
                     emit(c, "powi", ls, ld, v, None, Some(n), r, it);
@@ -193,7 +200,7 @@ where
         for x in [0u128, (3u128 << ls.f.min(120)) & mask(ls.w - 1)] {
             let a = S::from_raw(x);
             for n in [i32::MIN, i32::MIN + 1] {
-                let (r, it) = call::<D, _>(ls, ld, || tr::powi::<S, D>(a, n));
+                let (r, it) = call_powi::<D, _>(|| tr::powi::<S, D>(a, n));
                 emit(c, "powi", ls, ld, a.val(), None, Some(n), r, it);
             }
         }
